@@ -3,41 +3,7 @@
 // real `+` and `*`.  The laws hold on polynomials in normal form (`nf`: len <= MAX_COEFFS and every coefficient at or
 // beyond `len` is the coefficient zero) -- `zero`, `one`, and every result of `+` and `*` are in normal form.
 
-/// the VALID elements of the coefficient type form a commutative semiring under its operator specifications
-/// (`valid` is the representation invariant of the type, e.g. "the residue is reduced" for FiniteField)
-#[verifier::opaque]
-pub open spec fn csr<C: Semiring>() -> bool {
-    &&& C::zero_s().valid() && C::one_s().valid()
-    &&& forall|a: C, b: C| a.valid() && b.valid() ==> (#[trigger] a.add_spec(b)).valid()
-    &&& forall|a: C, b: C| a.valid() && b.valid() ==> (#[trigger] a.mul_spec(b)).valid()
-    &&& forall|a: C, b: C| a.valid() && b.valid() ==> #[trigger] a.add_spec(b) == b.add_spec(a)
-    &&& forall|a: C, b: C, c: C| a.valid() && b.valid() && c.valid() ==> #[trigger] a.add_spec(b).add_spec(c) == a.add_spec(b.add_spec(c))
-    &&& forall|a: C| a.valid() ==> #[trigger] a.add_spec(C::zero_s()) == a
-    &&& forall|a: C, b: C| a.valid() && b.valid() ==> #[trigger] a.mul_spec(b) == b.mul_spec(a)
-    &&& forall|a: C, b: C, c: C| a.valid() && b.valid() && c.valid() ==> #[trigger] a.mul_spec(b).mul_spec(c) == a.mul_spec(b.mul_spec(c))
-    &&& forall|a: C| a.valid() ==> #[trigger] a.mul_spec(C::one_s()) == a
-    &&& forall|a: C| a.valid() ==> #[trigger] a.mul_spec(C::zero_s()) == C::zero_s()
-    &&& forall|a: C, b: C, c: C| a.valid() && b.valid() && c.valid() ==> #[trigger] a.mul_spec(b.add_spec(c)) == a.mul_spec(b).add_spec(a.mul_spec(c))
-}
-pub proof fn c_consts<C: Semiring>() requires csr::<C>() ensures C::zero_s().valid(), C::one_s().valid() { reveal(csr); }
-pub proof fn c_closed<C: Semiring>(a: C, b: C) requires csr::<C>(), a.valid(), b.valid() ensures a.add_spec(b).valid(), a.mul_spec(b).valid() { reveal(csr); }
-pub proof fn c_add_comm<C: Semiring>(a: C, b: C) requires csr::<C>(), a.valid(), b.valid() ensures a.add_spec(b) == b.add_spec(a) { reveal(csr); }
-pub proof fn c_add_assoc<C: Semiring>(a: C, b: C, c: C) requires csr::<C>(), a.valid(), b.valid(), c.valid() ensures a.add_spec(b).add_spec(c) == a.add_spec(b.add_spec(c)) { reveal(csr); }
-pub proof fn c_add_zero<C: Semiring>(a: C) requires csr::<C>(), a.valid() ensures a.add_spec(C::zero_s()) == a, C::zero_s().add_spec(a) == a { reveal(csr); }
-pub proof fn c_mul_comm<C: Semiring>(a: C, b: C) requires csr::<C>(), a.valid(), b.valid() ensures a.mul_spec(b) == b.mul_spec(a) { reveal(csr); }
-pub proof fn c_mul_assoc<C: Semiring>(a: C, b: C, c: C) requires csr::<C>(), a.valid(), b.valid(), c.valid() ensures a.mul_spec(b).mul_spec(c) == a.mul_spec(b.mul_spec(c)) { reveal(csr); }
-pub proof fn c_mul_one<C: Semiring>(a: C) requires csr::<C>(), a.valid() ensures a.mul_spec(C::one_s()) == a, C::one_s().mul_spec(a) == a { reveal(csr); }
-pub proof fn c_mul_zero<C: Semiring>(a: C) requires csr::<C>(), a.valid() ensures a.mul_spec(C::zero_s()) == C::zero_s(), C::zero_s().mul_spec(a) == C::zero_s() { reveal(csr); }
-pub proof fn c_distr<C: Semiring>(a: C, b: C, c: C) requires csr::<C>(), a.valid(), b.valid(), c.valid()
-    ensures a.mul_spec(b.add_spec(c)) == a.mul_spec(b).add_spec(a.mul_spec(c)), b.add_spec(c).mul_spec(a) == b.mul_spec(a).add_spec(c.mul_spec(a))
-{ reveal(csr); }
-/// (a+b)+(c+d) == (a+c)+(b+d)
-pub proof fn c_add_swap<C: Semiring>(a: C, b: C, c: C, d: C) requires csr::<C>(), a.valid(), b.valid(), c.valid(), d.valid()
-    ensures a.add_spec(b).add_spec(c.add_spec(d)) == a.add_spec(c).add_spec(b.add_spec(d))
-{
-    c_closed(c, d); c_closed(b, d); c_closed(b, c); c_closed(c, b);
-    c_add_assoc(a, b, c.add_spec(d)); c_add_assoc(b, c, d); c_add_comm(b, c); c_add_assoc(c, b, d); c_add_assoc(a, c, b.add_spec(d));
-}
+//%% include prelude/csr.rs
 
 pub type CF<C> = spec_fn(int) -> C;
 
